@@ -86,6 +86,29 @@ pub enum CopyMode {
     All(u32),
     Dirs(u32),
     Files(u32),
+    /// two chmod options called one after the other on the same builder: the later call replaces the earlier
+    Then(Box<CopyMode>, Box<CopyMode>),
+}
+impl CopyMode {
+    /// what the builder documents for a sequence of chmod_* calls: the last one counts
+    pub fn effective(&self) -> CopyMode {
+        match self {
+            CopyMode::Then(a, b) => match b.effective() {
+                CopyMode::None => a.effective(),
+                x => x,
+            },
+            x => x.clone(),
+        }
+    }
+    fn apply(&self, c: rivia::sys::Copier) -> rivia::sys::Copier {
+        match self {
+            CopyMode::None => c,
+            CopyMode::All(x) => c.chmod_all(*x),
+            CopyMode::Dirs(x) => c.chmod_dirs(*x),
+            CopyMode::Files(x) => c.chmod_files(*x),
+            CopyMode::Then(a, b) => b.apply(a.apply(c)),
+        }
+    }
 }
 #[derive(Clone, Debug, PartialEq, Eq, Hash, PartialOrd, Ord)]
 pub struct ChmodO {
@@ -486,12 +509,7 @@ fn exec_inner<V: VirtualFileSystem>(v: &V, op: &Op) -> Res {
         Copy(a, b) => r_unit(v.copy(a, b)),
         CopyB(a, b, m, f) => match v.copy_b(a, b) {
             Ok(mut c) => {
-                c = match m {
-                    CopyMode::None => c,
-                    CopyMode::All(x) => c.chmod_all(*x),
-                    CopyMode::Dirs(x) => c.chmod_dirs(*x),
-                    CopyMode::Files(x) => c.chmod_files(*x),
-                };
+                c = m.apply(c);
                 if *f {
                     c = c.follow(true);
                 }
